@@ -57,3 +57,11 @@ reg("C19", "model_checking",
     "literal matcher, first-byte rejection set)",
     _NOTE + " A pattern that the selector no longer routes to a fast path is not counted (dropping a fast path violates nothing); per-strategy coverage is reported.",
     "TLC-generated per-offset vectors replayed end to end by strategy and into directly constructed searchers", "DESIGN.md §6 C19")
+
+reg("C15", "translation_validation",
+    "The byte automaton the real compiler produces for each descriptor (classes at every UTF-8 length boundary, negations, folded classes and literals, dot, "
+    "(?s)dot) in each compilation mode (default, sparse dot, ASCII-only) is exported through nfa.NFA's inspection API and TLC runs its byte-level semantics "
+    "on all boundary code points and all byte strings of length <= 3 over 15 critical bytes, against Member(descriptor, utf8-decoded rune) of the "
+    "specification (spec/UTF8.tla transcribes utf8.DecodeRune); plus a sweep of the code points with the real engine against regexp",
+    "Trusted: the exporter (each disagreement is re-observed on the real engine), TLC, regexp as arbiter. Descriptors are the 52 of spec/MC_UTF8.tla.",
+    "translation validation: exported artefact of the implementation checked by TLC against the TLA+ specification", "DESIGN.md §6 C15")
